@@ -47,7 +47,7 @@ def gen_cases(seed, tier):
             cases.append(dict(kind='record', cfg=cfg, mode=['num_blocks', 'obs_length'][(i // 8) % 2],
                               frac=float(common.pick(rng, [0.0, 0.0, 0.5, 0.999, 1e-12])), sub=int(rng.integers(2 ** 31))))
             continue
-        P = int(2 ** rng.integers(3, 13))
+        P = int(2 ** rng.integers(3, 13)) if rng.random() < 0.8 else int(common.pick(rng, [15, 25, 33, 100, 1023, 4097]))
         M = int(rng.integers(2, 17))
         nchan = int(common.pick(rng, [1, 2, 3, 16, 64, P // 2])) if rng.random() < 0.6 else int(rng.integers(1, P // 2 + 1))
         nchan = min(nchan, P // 2)
